@@ -9,7 +9,7 @@ from . import c05
 from edgegraph.structure import Vertex, Universe, DirectedEdge, UnDirectedEdge
 from edgegraph.structure.universe import UniverseLaws
 from edgegraph.traversal import helpers, breadthfirst, depthfirst
-from edgegraph.builder import adjlist, adjmatrix
+from edgegraph.builder import adjlist, adjmatrix, explicit
 
 
 # ---------------------------------------------------------------------------------------------
@@ -168,7 +168,15 @@ def fixture():
     wl = {Vertex: {Vertex: DirectedEdge}}
     L = UniverseLaws(edge_whitelist=wl, mixed_links=True)
     u = Universe(vertices=[a, b, c], laws=L)
-    return w, {"a": a, "b": b, "c": c, "e1": e1, "e2": e2, "e3": e3, "e4": e4, "L": L, "u": u}
+    # ... and every container in its EMPTY state: an isolated vertex, a link that lost both ends, a universe without members,
+    # a law set with an empty whitelist
+    iso, x, y = Vertex(), Vertex(), Vertex()
+    e0 = DirectedEdge(x, y)
+    explicit.unlink(x, y, destroy=False)
+    u0 = Universe()
+    L0 = UniverseLaws(edge_whitelist={})
+    return w, {"a": a, "b": b, "c": c, "e1": e1, "e2": e2, "e3": e3, "e4": e4, "L": L, "u": u,
+               "iso": iso, "e0": e0, "u0": u0, "L0": L0, "x": x, "y": y}
 
 
 def full_view(w, o):
@@ -176,16 +184,20 @@ def full_view(w, o):
     ids = w.id_of
     view = {"snap": w.snapshot()}
     acc = {}
-    for n in ("a", "b", "c", "u"):
+    for n in ("a", "b", "c", "u", "iso", "x", "y", "u0"):
         acc[n + ".links"] = [ids(x) for x in o[n].links]
         acc[n + ".universes"] = [ids(x) for x in o[n].universes]
-    for n in ("e1", "e2", "e3", "e4"):
+    for n in ("e1", "e2", "e3", "e4", "e0"):
         acc[n + ".vertices"] = [ids(x) for x in o[n].vertices]
     acc["u.vertices"] = [ids(x) for x in o["u"].vertices]
-    wl = o["L"].edge_whitelist
-    acc["L.whitelist"] = None if wl is None else sorted((k.__name__, sorted((k2.__name__, v.__name__) for k2, v in d.items())) for k, d in wl.items())
+    acc["u0.vertices"] = [ids(x) for x in o["u0"].vertices]
+    for n in ("L", "L0"):
+        wl = o[n].edge_whitelist
+        acc[n + ".whitelist"] = None if wl is None else sorted((k.__name__, sorted((k2.__name__, v.__name__) for k2, v in d.items())) for k, d in wl.items())
     view["acc"] = acc
     qs = {}
+    for n in ("iso", "x"):
+        qs[f"nb {n}"] = Q.run_query(w, ["NB", ids(o[n]), "AnyDir", "UNb", None])
     for n in ("a", "b", "c"):
         for d in Q.DIRS:
             qs[f"nb {n} {d}"] = Q.run_query(w, ["NB", ids(o[n]), d, "UNb", None])
@@ -211,6 +223,14 @@ ACCESSORS = {
     "bft": lambda w, o: breadthfirst.bft(o["u"], o["a"], direction_sensitive=helpers.DIR_SENS_ANY, unknown_handling=helpers.LNK_UNKNOWN_NEIGHBOR),
     "dft_recursive": lambda w, o: depthfirst.dft_recursive(o["u"], o["a"], direction_sensitive=helpers.DIR_SENS_ANY, unknown_handling=helpers.LNK_UNKNOWN_NEIGHBOR),
     "dft_iterative": lambda w, o: depthfirst.dft_iterative(o["u"], o["a"], direction_sensitive=helpers.DIR_SENS_ANY, unknown_handling=helpers.LNK_UNKNOWN_NEIGHBOR),
+    # the same accessors on EMPTY objects (an empty container is falsy: `x and f(x)`, `x or default` hand back x itself)
+    "Vertex.links (empty)": lambda w, o: o["iso"].links,
+    "Link.vertices (empty)": lambda w, o: o["e0"].vertices,
+    "Universe.vertices (empty)": lambda w, o: o["u0"].vertices,
+    "BaseObject.universes (empty)": lambda w, o: o["iso"].universes,
+    "UniverseLaws.edge_whitelist (empty)": lambda w, o: o["L0"].edge_whitelist,
+    "neighbors (empty)": lambda w, o: helpers.neighbors(o["iso"], direction_sensitive=helpers.DIR_SENS_ANY, unknown_handling=helpers.LNK_UNKNOWN_NEIGHBOR),
+    "find_links (empty)": lambda w, o: helpers.find_links(o["iso"], o["a"], direction_sensitive=False),
 }
 CONTAINER_EDITS = ["append", "remove", "clear", "sort", "setitem", "add", "delitem", "update"]
 
@@ -253,11 +273,11 @@ class AccessorMatrix(Leg):
     checkfn = "(fun b : bool => b)"
     case_type = "bool"
     exhaustive = True
-    rule = ("exhaustive matrix: 12 read accessors / queries x 8 edit kinds (append, remove, clear, sort, item assignment, add, "
+    rule = ("exhaustive matrix: 12 read accessors / queries (7 of them also on EMPTY objects) x 8 edit kinds (append, remove, clear, sort, item assignment, add, "
             "del item, update) x caching {off, on}: the edit is attempted on the returned container (an immutable one must refuse), "
             "then the whole snapshot, every accessor and a batch of queries must read as before; identity with private fields checked")
-    quick_n = 192
-    thorough_n = 192
+    quick_n = 304
+    thorough_n = 304
 
     def generate(self, rng, n):
         for acc in ACCESSORS:
@@ -420,9 +440,88 @@ def _inputs():
         e = DirectedEdge(a, b, attributes=d)
         w.extra = lambda: {"w": getattr(e, "w", None), "x": hasattr(e, "x")}
         return d, lambda: d.update(w=2, x=3)
+
+    # ---- the same arguments passed EMPTY and filled by the caller afterwards (an empty container is falsy: `if arg:` is not
+    # `if arg is not None:`)
+    def vertex_links_empty(w):
+        a, b = Vertex(), Vertex()
+        e = DirectedEdge(a, b)
+        lst = []
+        v = Vertex(links=lst)
+        w.extra = lambda: [w.id_of(x) for x in v.links]
+        return lst, lambda: lst.append(e)
+
+    def vertex_universes_empty(w):
+        u = Universe()
+        lst = []
+        v = Vertex(universes=lst)
+        w.extra = lambda: [w.id_of(x) for x in v.universes]
+        return lst, lambda: lst.append(u)
+
+    def vertex_attributes_empty(w):
+        d = {}
+        v = Vertex(attributes=d)
+        w.extra = lambda: hasattr(v, "x")
+        return d, lambda: d.update(x=3)
+
+    def universe_vertices_empty(w):
+        a = Vertex()
+        lst = []
+        u = Universe(vertices=lst)
+        w.extra = lambda: [w.id_of(x) for x in u.vertices]
+        return lst, lambda: lst.append(a)
+
+    def laws_whitelist_empty(w):
+        wl = {}
+        L = UniverseLaws(edge_whitelist=wl)
+        u = Universe(laws=L)
+        w.extra = lambda: [sorted((k.__name__, sorted((k2.__name__, v.__name__) for k2, v in d.items())) for k, d in x.edge_whitelist.items())
+                           for x in (L, u.laws)]
+        return wl, lambda: wl.update({Vertex: {Vertex: DirectedEdge}})
+
+    def adj_dict_empty(w):
+        a, b = Vertex(), Vertex()
+        adj = {}
+        u = adjlist.load_adj_dict(adj)
+        w.extra = lambda: [w.id_of(x) for x in u.vertices]
+        return adj, lambda: adj.update({a: [b], b: []})
+
+    def adj_dict_empty_rows(w):
+        a, b = Vertex(), Vertex()
+        adj = {a: [], b: []}
+        u = adjlist.load_adj_dict(adj)
+        w.extra = lambda: [[w.id_of(x) for x in helpers.neighbors(v)] for v in u.vertices]
+        return adj, lambda: (adj[a].append(b), adj[b].append(b))
+
+    def adj_matrix_empty(w):
+        a = Vertex()
+        vs, m = [], []
+        u = adjmatrix.load_adj_matrix(m, vs)
+        w.extra = lambda: [w.id_of(x) for x in u.vertices]
+        return m, lambda: (m.append([1]), vs.append(a))
+
+    def link_vertices_empty(w):
+        from edgegraph.structure.link import Link
+
+        class Hyper(Link):
+            pass
+        a = Vertex()
+        lst = []
+        h = Hyper(vertices=lst)
+        w.extra = lambda: [w.id_of(x) for x in h.vertices]
+        return lst, lambda: lst.append(a)
+
+    def edge_attributes_empty(w):
+        a, b = Vertex(), Vertex()
+        d = {}
+        e = DirectedEdge(a, b, attributes=d)
+        w.extra = lambda: hasattr(e, "x")
+        return d, lambda: d.update(x=3)
     return {f.__name__: f for f in (vertex_links, vertex_universes, vertex_attributes, universe_vertices, laws_whitelist,
                                     laws_whitelist_inner_clear, adj_dict, adj_matrix, link_vertices, link_vertices_written_back,
-                                    edge_attributes)}
+                                    edge_attributes, vertex_links_empty, vertex_universes_empty, vertex_attributes_empty,
+                                    universe_vertices_empty, laws_whitelist_empty, adj_dict_empty, adj_dict_empty_rows,
+                                    adj_matrix_empty, link_vertices_empty, edge_attributes_empty)}
 
 
 class InputContainers(Leg):
@@ -433,9 +532,9 @@ class InputContainers(Leg):
     exhaustive = True
     rule = ("every constructor / builder container argument (links=, universes=, attributes=, vertices=, edge_whitelist= at both "
             "levels, adjacency dict, adjacency matrix and side array): the caller edits it after construction; the built objects' "
-            "snapshot and read-back must not change; caching off and on")
-    quick_n = 22
-    thorough_n = 22
+            "snapshot and read-back must not change; each argument also passed EMPTY and filled afterwards; caching off and on")
+    quick_n = 42
+    thorough_n = 42
 
     def generate(self, rng, n):
         for name in _inputs():
